@@ -241,7 +241,9 @@ def cases(E):
     return cs
 
 
-OPTIONAL_CHECKS = {"set_position_contract": ["unmapped_rejected", "unmapped_changes_nothing", "mapped", "run_address_is_target", "rom_offset_set", "rom_pc_is_physical",
+from vf.props.C14 import OPTIONAL_CHECKS as _DRV_OPT  # noqa: E402
+OPTIONAL_CHECKS = {"assemble_contract": _DRV_OPT["assemble_contract"], "assemble_as_patch_contract": _DRV_OPT["assemble_as_patch_contract"],
+                   "set_position_contract": ["unmapped_rejected", "unmapped_changes_nothing", "mapped", "run_address_is_target", "rom_offset_set", "rom_pc_is_physical",
                                              "ram_offset_unchanged"]}
 
 
